@@ -1226,10 +1226,18 @@ export class TupleRuntype extends BaseRuntype {
     const prefixItems = this.prefix.map((it) => it.schema(ctx));
     const items = this.rest != null ? this.rest.schema(ctx) : false;
     popPath(ctx);
+    // validate() reads a missing element as undefined: every position up to the last one that rejects undefined must be present
+    let minItems = 0;
+    this.prefix.forEach((it, i) => {
+      if (!it.validate({ disallowExtraProperties: false }, undefined)) {
+        minItems = i + 1;
+      }
+    });
     return annotateSchema(this.metadata, {
       type: "array",
       prefixItems,
       items,
+      ...(minItems > 0 ? { minItems } : {}),
     } as any);
   }
   validate(ctx: ValidateContext, input: unknown): boolean {
